@@ -336,6 +336,7 @@ static Outcome ArchiveLeg(RunCtx& ctx, Outcome& out)
 	const int which = static_cast<int>(s.draw(sim::L_CFG, 3));    // 0 csv, 1 json, 2 xml
 	const int archive = which == 0 ? A_CSV : which == 1 ? A_JSON : A_XML;
 	const std::u32string text = GenText(s, sim::L_DOC, which == 2 ? TextProfile::Xml : (which == 0 ? TextProfile::Csv : TextProfile::Any), 400);
+	const bool rootString = which == 1 && (bom || enc == 0) && s.chance(sim::L_CFG, 1, 3);
 	std::u32string doc;
 	if (which == 0)
 	{
@@ -343,7 +344,12 @@ static Outcome ArchiveLeg(RunCtx& ctx, Outcome& out)
 		for (char32_t c : text) { if (c == U'"') doc.push_back(U'"'); doc.push_back(c); }
 		doc += U"\"\r\n";
 	}
-	else if (which == 1) JsonEscapeRef(text, doc);
+	else if (which == 1)
+	{
+		JsonEscapeRef(text, doc);
+		// 1 JSON document in 3 (with BOM or in UTF-8: see KF-JSON-BOMLESS-DETECT) is the bare string, a root value whose first characters need not be ASCII
+		if (rootString) doc = doc.substr(5, doc.size() - 6);
+	}
 	else
 	{
 		doc = U"<?xml version=\"1.0\"?><root><v>";
@@ -356,11 +362,11 @@ static Outcome ArchiveLeg(RunCtx& ctx, Outcome& out)
 	// KF-JSON-BOMLESS-DETECT (owned by C01): RapidJSON needs two ASCII characters in front for BOM-less UTF-16/32: '{' and '"' are
 	std::string bytes = bom ? RefBom(enc) : std::string();
 	for (char32_t c : doc) RefEncode(bytes, c, enc);
-	DynNode root(which == 0 ? K::Arr : K::Obj);
+	DynNode root(which == 0 ? K::Arr : rootString ? K::Str : K::Obj);
 	DynNode v(K::Str);
 	Key k; k.s = "v";
 	if (which == 0) { DynNode row(K::Obj); row.keys.push_back(k); row.items.push_back(v); root.items.push_back(row); }
-	else { root.keys.push_back(k); root.items.push_back(v); }
+	else if (!rootString) { root.keys.push_back(k); root.items.push_back(v); }
 	InCfg c = DrawStreamCfg(s, sim::L_IO);
 	SerializationOptions o;
 	ctx.note(std::string("archive leg: ") + ArchiveName(archive) + " enc=" + EncName(enc) + (bom ? "+bom" : "") + " chars=" + std::to_string(text.size()) + " stream=" + c.str());
@@ -377,7 +383,7 @@ static Outcome ArchiveLeg(RunCtx& ctx, Outcome& out)
 	if (!r.ok) return Violation("WRONG_EXCEPTION", tags + " what=unloadable exc=" + r.cat, "a well-formed " + std::string(EncName(enc)) + " document failed to load: " + r.cat + " (" + r.what + ")");
 	// the CSV table has exactly one row: a phantom row after the last line break is a loss-less-ness violation too
 	if (which == 0 && (root.loadedCount != 1 || root.extra)) return Violation("WRONG_VALUE", tags + " what=rows", "the CSV document has one row, the loader saw " + std::to_string(root.loadedCount) + (root.extra ? "+more" : ""));
-	const DynNode& got = which == 0 ? root.items[0].items[0] : root.items[0];
+	const DynNode& got = which == 0 ? root.items[0].items[0] : rootString ? root : root.items[0];
 	std::string expect = ToUtf8(text);
 	if (got.s != expect) return Violation("WRONG_VALUE", tags + " what=text", "loaded string differs: " + DiffAt(sim::hex(expect, 4096), sim::hex(got.s, 4096)));
 	out.nontrivial = enc != 0 && info.underflows >= 2;
@@ -391,7 +397,7 @@ static Outcome ArchiveLeg(RunCtx& ctx, Outcome& out)
 		const bool pretty = which != 0 && s.chance(sim::L_CFG, 1, 2);
 		if (pretty) { so.formatOptions.enableFormat = true; so.formatOptions.paddingChar = s.chance(sim::L_CFG, 1, 2) ? ' ' : '\t'; so.formatOptions.paddingCharNum = static_cast<uint16_t>(1 + s.draw(sim::L_CFG, 3)); }
 		DynNode doc = Skeleton(root);
-		(which == 0 ? doc.items[0].items[0] : doc.items[0]).s = expect;
+		(which == 0 ? doc.items[0].items[0] : rootString ? doc : doc.items[0]).s = expect;
 		std::string written;
 		OutCfg oc; oc.stream = true; static const uint32_t bufs[] = { 0, 1, 7, 4096 }; oc.bufSize = s.pick(sim::L_IO, bufs);
 		sim::steps_begin(3000ull * (bytes.size() + 65536));
@@ -407,7 +413,7 @@ static Outcome ArchiveLeg(RunCtx& ctx, Outcome& out)
 		const CallResult rl = LoadDynWith(GetOps(archive), back, written, o, backCfg);
 		sim::steps_end();
 		if (!rl.ok) return Violation("WRONG_EXCEPTION", stags + " what=unloadable exc=" + rl.cat, "what the archive wrote to the " + std::string(EncName(enc)) + " stream cannot be loaded: " + rl.cat + " (" + rl.what + ") bytes=" + sim::hex(written, 120));
-		const DynNode& got2 = which == 0 ? back.items[0].items[0] : back.items[0];
+		const DynNode& got2 = which == 0 ? back.items[0].items[0] : rootString ? back : back.items[0];
 		if (got2.s != expect) return Violation("WRONG_VALUE", stags + " what=text", "text written to the stream and loaded again differs: " + DiffAt(sim::hex(expect, 4096), sim::hex(got2.s, 4096)));
 		sim::probe("archive-save-to-encoded-stream");
 	}
